@@ -327,5 +327,1048 @@ theorem interp_disp {dev : Device} {st : RState} {w : World} {I} (hM : Match st 
   simp only [RState.interp, hlab, hfind, hwa, hput, Option.bind_eq_bind, Option.bind_some,
     Option.pure_def]
 
+/-! ### `prepareAD`: what an accepted record carries -/
+
+theorem prepareAD_fields (a : ADArgs) (M : Option Rat) (f : ADFields) (h : prepareAD a M = .ok f) :
+    f.vol = a.vol ∧ f.rackLabel = a.rackLabel ∧ f.position = a.position.toNat
+      ∧ (∀ m, M = some m → a.vol ≤ m) := by
+  simp only [prepareAD, bind, Except.bind, pure, Except.pure, throw, throwThe,
+    MonadExceptOf.throw] at h
+  repeat' split at h
+  all_goals first
+    | (injection h with h; subst h; refine ⟨rfl, rfl, rfl, ?_⟩
+       intro m hm; cases hm; exact Rat.not_lt.mp (by assumption))
+    | (injection h with h; subst h; refine ⟨rfl, rfl, rfl, ?_⟩
+       intro m hm; cases hm)
+    | (injection h)
+
+/-! ### The invariant and safe blocks -/
+
+/-- The records emitted so far can be replayed from the initial contents. -/
+def Replayable (dev : Device) (labs₀ : List Labware) (w : World) : Prop :=
+  ∃ st, (RState.ofLabs labs₀).run dev w.recs = some st
+
+/-- … and the replay reproduces the tracked volumes of every well. -/
+def Inv (dev : Device) (labs₀ : List Labware) (w : World) : Prop :=
+  ∃ st, (RState.ofLabs labs₀).run dev w.recs = some st ∧ Match st w
+
+theorem Inv.replayable {dev labs₀ w} (h : Inv dev labs₀ w) : Replayable dev labs₀ w :=
+  let ⟨st, h1, _⟩ := h; ⟨st, h1⟩
+
+theorem sinfo_set {labs : List Labware} {l : Nat} {L L' : Labware} (hL : labs[l]? = some L)
+    (h : sinfo L' = sinfo L) : (labs.set l L').map sinfo = labs.map sinfo := by
+  rw [List.map_set, h]
+  have : (labs.map sinfo)[l]? = some (sinfo L) := by simp [hL]
+  apply List.ext_getElem?
+  intro j
+  by_cases hj : l = j
+  · subst hj
+    rw [List.getElem?_set_self' ]
+    simp [hL]
+  · rw [List.getElem?_set_ne hj]
+
+theorem info_micro {w w' : World} {m : Micro} (h : w.micro m = .ok w') : info w' = info w := by
+  rcases World.micro_labs h with h' | ⟨l, L, L', hL, hset, hcase⟩
+  · unfold info; rw [h']
+  · unfold info
+    rw [hset]
+    apply sinfo_set hL
+    rcases hcase with ⟨i, v, _, hs⟩ | ⟨i, v, c, co, _, hs⟩ | ⟨label, rfl⟩ | ⟨n, label, hs⟩
+    · obtain ⟨_, hv, _, _, hn, hg, _⟩ := Labware.removeStep_fields hs
+      simp [sinfo, hv, hn, hg]
+    · obtain ⟨_, hv, _, _, hn, hg, _⟩ := Labware.addStep_fields hs
+      simp [sinfo, hv, hn, hg]
+    · simp [sinfo, Labware.log]
+    · obtain ⟨hv, _, _, _, hg, hn⟩ := Labware.condenseLog_fields hs
+      simp [sinfo, hv, hn, hg]
+
+theorem info_exec (w : World) (ms : List Micro) : info (w.exec ms).1 = info w := by
+  have := World.exec_invariant (P := fun w' => info w' = info w) (Q := fun _ => True)
+    (fun w1 w2 m _ hP hm => by rw [info_micro hm]; exact hP) w ms (fun _ _ => trivial) rfl
+  exact this
+
+/-- A list of micro-operations which, run from any state in which the replay mirrors the
+    tracking, leaves the records replayable (also when it stops early) and, when it runs to the
+    end, leaves the replay mirroring the tracking again. -/
+def SafeBlock (dev : Device) (labs₀ : List Labware) (I : List (String × Geom × Nat))
+    (ms : List Micro) : Prop :=
+  ∀ w, info w = I → Inv dev labs₀ w →
+    Replayable dev labs₀ (w.exec ms).1 ∧ ((w.exec ms).2 = none → Inv dev labs₀ (w.exec ms).1)
+
+theorem safe_nil {dev labs₀ I} : SafeBlock dev labs₀ I [] :=
+  fun _ _ hinv => ⟨hinv.replayable, fun _ => hinv⟩
+
+theorem safe_append {dev labs₀ I a b} (ha : SafeBlock dev labs₀ I a) (hb : SafeBlock dev labs₀ I b) :
+    SafeBlock dev labs₀ I (a ++ b) := by
+  intro w hI hinv
+  rw [World.exec_append]
+  obtain ⟨hr, hi⟩ := ha w hI hinv
+  have hinfo := info_exec w a
+  cases hx : w.exec a with
+  | mk w1 e1 =>
+    rw [hx] at hr hi hinfo
+    cases e1 with
+    | none => exact hb w1 (by rw [hinfo, hI]) (hi rfl)
+    | some e => exact ⟨hr, fun h => by cases h⟩
+
+theorem safe_flatMap {α} {dev labs₀ I} (xs : List α) (f : α → List Micro)
+    (h : ∀ x ∈ xs, SafeBlock dev labs₀ I (f x)) : SafeBlock dev labs₀ I (xs.flatMap f) := by
+  induction xs with
+  | nil => exact safe_nil
+  | cons x xs ih =>
+    rw [List.flatMap_cons]
+    exact safe_append (h x List.mem_cons_self) (ih fun y hy => h y (List.mem_cons_of_mem _ hy))
+
+/-- Records the replay ignores. -/
+def Rec.neutral : Rec → Bool
+  | .asp _ | .disp _ | .rd _ => false
+  | _ => true
+
+theorem interp_neutral (dev : Device) (st : RState) {r : Rec} (h : Rec.neutral r = true) :
+    st.interp dev r = some st := by
+  cases r <;> simp_all [Rec.neutral, RState.interp]
+
+/-- Micro-operations that change no volume and emit nothing the replay interprets. -/
+def Micro.neutral : Micro → Bool
+  | .rm _ _ _ | .ad _ _ _ _ => false
+  | .emit r => Rec.neutral r
+  | _ => true
+
+theorem labMatch_of_vols {R : RLab} {L L' : Labware} (h : LabMatch R L) (hv : L'.vols = L.vols)
+    (hn : L'.name = L.name) (hg : L'.geom = L.geom) (hmin : L'.minV = L.minV)
+    (hmax : L'.maxV = L.maxV) : LabMatch R L' :=
+  ⟨by rw [h.name, hn], by rw [h.geom, hg], by rw [h.minV, hmin], by rw [h.maxV, hmax],
+   by rw [h.vols, hv]⟩
+
+theorem forall₂_set_right {α β} {R : α → β → Prop} {xs : List α} {ys : List β}
+    (h : List.Forall₂ R xs ys) (l : Nat) {a : α} {b : β} (ha : xs[l]? = some a) (hab : R a b) :
+    List.Forall₂ R xs (ys.set l b) := by
+  induction h generalizing l with
+  | nil => exact List.Forall₂.nil
+  | cons hxy hrest ih =>
+    cases l with
+    | zero =>
+      simp only [List.getElem?_cons_zero, Option.some.injEq] at ha
+      subst ha
+      exact List.Forall₂.cons hab hrest
+    | succ l' => exact List.Forall₂.cons hxy (ih l' ha)
+
+theorem match_set_right {st : RState} {w : World} (hM : Match st w) (l : Nat) {R : RLab}
+    {L' : Labware} (hR : st.labs[l]? = some R) (h : LabMatch R L') : Match st (w.setLab l L') := by
+  unfold Match World.setLab
+  exact forall₂_set_right hM l hR h
+
+theorem safe_neutral {dev labs₀ I} (m : Micro) (hm : Micro.neutral m = true) :
+    SafeBlock dev labs₀ I [m] := by
+  intro w _ hinv
+  obtain ⟨st, hrun, hM⟩ := hinv
+  cases hx : w.micro m with
+  | error e =>
+    rw [World.exec_cons_error _ hx]
+    exact ⟨⟨st, hrun⟩, fun h => by cases h⟩
+  | ok w' =>
+    rw [World.exec_cons_ok _ hx, World.exec_nil]
+    suffices h : Inv dev labs₀ w' from ⟨h.replayable, fun _ => h⟩
+    cases m with
+    | rm _ _ _ => simp [Micro.neutral] at hm
+    | ad _ _ _ _ => simp [Micro.neutral] at hm
+    | loadComp l i =>
+      simp only [World.micro] at hx
+      split at hx
+      · cases hx
+      · cases hx; exact ⟨st, hrun, hM⟩
+    | log l label =>
+      simp only [World.micro] at hx
+      split at hx
+      · cases hx
+      · rename_i L hL
+        cases hx
+        obtain ⟨R, hR, hRL⟩ := forall₂_getElem? hM hL
+        exact ⟨st, hrun, match_set_right hM l hR (labMatch_of_vols hRL rfl rfl rfl rfl rfl)⟩
+    | condense l n label =>
+      simp only [World.micro] at hx
+      split at hx
+      · cases hx
+      · rename_i L hL
+        split at hx
+        · rename_i L' hL'
+          cases hx
+          obtain ⟨hv, hmin, hmax, _, hg, hn⟩ := Labware.condenseLog_fields hL'
+          obtain ⟨R, hR, hRL⟩ := forall₂_getElem? hM hL
+          exact ⟨st, hrun, match_set_right hM l hR (labMatch_of_vols hRL hv hn hg hmin hmax)⟩
+        · cases hx
+    | emit r =>
+      simp only [World.micro] at hx
+      cases hx
+      refine ⟨st, ?_, hM⟩
+      simp only
+      rw [run_append, hrun, Option.bind_some, run_singleton]
+      exact interp_neutral dev st hm
+    | setDiti i =>
+      simp only [World.micro] at hx
+      repeat' split at hx
+      all_goals first
+        | (injection hx with hx; subst hx
+           refine ⟨st, ?_, hM⟩
+           simp only
+           rw [run_append, hrun, Option.bind_some, run_singleton]
+           rfl)
+        | (injection hx)
+    | fail e => simp [World.micro] at hx
+
+theorem safe_all_neutral {dev labs₀ I} (ms : List Micro) (h : ∀ m ∈ ms, Micro.neutral m = true) :
+    SafeBlock dev labs₀ I ms := by
+  induction ms with
+  | nil => exact safe_nil
+  | cons m ms ih =>
+    exact safe_append (a := [m]) (safe_neutral m (h m List.mem_cons_self))
+      (ih fun m' hm' => h m' (List.mem_cons_of_mem _ hm'))
+
+/-! ### Neutral stretches -/
+
+theorem run_neutral (dev : Device) (st : RState) (rs : List Rec) (h : ∀ r ∈ rs, Rec.neutral r = true) :
+    st.run dev rs = some st := by
+  induction rs with
+  | nil => rfl
+  | cons r rs ih =>
+    simp only [RState.run, interp_neutral dev st (h r List.mem_cons_self), Option.bind_some]
+    exact ih fun r' hr' => h r' (List.mem_cons_of_mem _ hr')
+
+theorem neutral_micro {w w' : World} {m : Micro} (hm : Micro.neutral m = true)
+    (hx : w.micro m = .ok w') :
+    ∃ nrecs, (∀ r ∈ nrecs, Rec.neutral r = true) ∧ w'.recs = w.recs ++ nrecs
+      ∧ ∀ st, Match st w → Match st w' := by
+  cases m with
+  | rm _ _ _ => simp [Micro.neutral] at hm
+  | ad _ _ _ _ => simp [Micro.neutral] at hm
+  | loadComp l i =>
+    simp only [World.micro] at hx
+    split at hx
+    · cases hx
+    · cases hx; exact ⟨[], by simp, by simp, fun st h => h⟩
+  | log l label =>
+    simp only [World.micro] at hx
+    split at hx
+    · cases hx
+    · rename_i L hL
+      cases hx
+      refine ⟨[], by simp, by simp [World.setLab], fun st hM => ?_⟩
+      obtain ⟨R, hR, hRL⟩ := forall₂_getElem? hM hL
+      exact match_set_right hM l hR (labMatch_of_vols hRL rfl rfl rfl rfl rfl)
+  | condense l n label =>
+    simp only [World.micro] at hx
+    split at hx
+    · cases hx
+    · rename_i L hL
+      split at hx
+      · rename_i L' hL'
+        cases hx
+        obtain ⟨hv, hmin, hmax, _, hg, hn⟩ := Labware.condenseLog_fields hL'
+        refine ⟨[], by simp, by simp [World.setLab], fun st hM => ?_⟩
+        obtain ⟨R, hR, hRL⟩ := forall₂_getElem? hM hL
+        exact match_set_right hM l hR (labMatch_of_vols hRL hv hn hg hmin hmax)
+      · cases hx
+  | emit r =>
+    simp only [World.micro] at hx
+    cases hx
+    exact ⟨[r], by simpa [Micro.neutral] using hm, rfl, fun st h => h⟩
+  | setDiti i =>
+    simp only [World.micro] at hx
+    repeat' split at hx
+    all_goals first
+      | (injection hx with hx; subst hx
+         exact ⟨[Rec.setDiti i], by simp [Rec.neutral], rfl, fun st h => h⟩)
+      | (injection hx)
+  | fail e => simp [World.micro] at hx
+
+theorem neutral_exec (w : World) (ms : List Micro) (h : ∀ m ∈ ms, Micro.neutral m = true) :
+    ∃ nrecs, (∀ r ∈ nrecs, Rec.neutral r = true) ∧ (w.exec ms).1.recs = w.recs ++ nrecs
+      ∧ ∀ st, Match st w → Match st (w.exec ms).1 := by
+  induction ms generalizing w with
+  | nil => exact ⟨[], by simp, by simp, fun st h => h⟩
+  | cons m ms ih =>
+    cases hx : w.micro m with
+    | error e =>
+      rw [World.exec_cons_error _ hx]
+      exact ⟨[], by simp, by simp, fun st h => h⟩
+    | ok w' =>
+      rw [World.exec_cons_ok _ hx]
+      obtain ⟨n1, hn1, hr1, hM1⟩ := neutral_micro (h m List.mem_cons_self) hx
+      obtain ⟨n2, hn2, hr2, hM2⟩ := ih w' fun m' hm' => h m' (List.mem_cons_of_mem _ hm')
+      refine ⟨n1 ++ n2, ?_, by rw [hr2, hr1, List.append_assoc], fun st hM => hM2 st (hM1 st hM)⟩
+      intro r hr
+      rcases List.mem_append.1 hr with h' | h'
+      · exact hn1 r h'
+      · exact hn2 r h'
+
+/-! ### Emission loops -/
+
+/-- Sequential evaluation of an emission loop: all records, or the first error. -/
+def emitAll {α} (f : α → Except Err (List Rec)) : List α → Except Err (List Rec)
+  | [] => .ok []
+  | p :: ps =>
+    match f p with
+    | .error e => .error e
+    | .ok rs =>
+      match emitAll f ps with
+      | .error e => .error e
+      | .ok rs' => .ok (rs ++ rs')
+
+theorem exec_emit_list (w : World) (rs : List Rec) :
+    w.exec (rs.map Micro.emit) = ({ w with recs := w.recs ++ rs }, none) := by
+  induction rs generalizing w with
+  | nil => simp
+  | cons r rs ih =>
+    rw [List.map_cons, World.exec_cons_ok (w' := { w with recs := w.recs ++ [r] }) _ rfl, ih]
+    simp
+
+/-- An emission loop run under `exec` appends exactly the records of a prefix of its iterations
+    (all of them when it runs to the end) and touches nothing else. -/
+theorem exec_emits {α} (f : α → Except Err (List Rec)) (ps : List α) (w : World) :
+    ∃ j recs, j ≤ ps.length ∧ emitAll f (ps.take j) = .ok recs
+      ∧ (w.exec (ps.flatMap fun p => exceptMicros (f p) fun rs => rs.map Micro.emit)).1
+          = { w with recs := w.recs ++ recs }
+      ∧ ((w.exec (ps.flatMap fun p => exceptMicros (f p) fun rs => rs.map Micro.emit)).2 = none
+          → j = ps.length) := by
+  induction ps generalizing w with
+  | nil => exact ⟨0, [], Nat.le_refl _, rfl, by simp, fun _ => rfl⟩
+  | cons p ps ih =>
+    rw [List.flatMap_cons, World.exec_append]
+    cases hf : f p with
+    | error e =>
+      refine ⟨0, [], Nat.zero_le _, rfl, ?_, ?_⟩
+      · simp [exceptMicros, World.exec, World.micro]
+      · simp [exceptMicros, World.exec, World.micro]
+    | ok rs =>
+      have hhead : (exceptMicros (Except.ok rs : Except Err (List Rec)) fun rs => rs.map Micro.emit)
+          = rs.map Micro.emit := rfl
+      rw [hhead, exec_emit_list]
+      simp only
+      obtain ⟨j, recs, hj, he, h1, h2⟩ := ih { w with recs := w.recs ++ rs }
+      refine ⟨j + 1, rs ++ recs, by simp; omega, ?_, ?_, ?_⟩
+      · simp only [List.take_succ_cons, emitAll, hf, he]
+      · rw [h1]; simp
+      · intro h; rw [h2 h]; simp
+
+/-! ### The aspirate / dispense loops -/
+
+def rmMicro (L : Labware) (l : Nat) (p : String × Rat) : Micro :=
+  match L.geom.resolveFlat p.1 with
+  | some i => Micro.rm l i p.2
+  | none => Micro.fail .reject
+
+def adMicro (L : Labware) (l : Nat) (p : (String × Rat) × CompSrc) : Micro :=
+  match L.geom.resolveFlat p.1.1 with
+  | some i => Micro.ad l i p.1.2 p.2
+  | none => Micro.fail .reject
+
+/-- One iteration of the emission loop of `aspirate` / `dispense`. -/
+def adOut (cfg : Cfg) (L : Labware) (isAsp : Bool) (kw : KW) (p : String × Rat) :
+    Except Err (List Rec) :=
+  if 0 < p.2 then
+    match cfg.dev.pos L.geom p.1 with
+    | .error e => .error e
+    | .ok pos =>
+      match prepareAD { rackLabel := L.name, position := pos, vol := p.2,
+                        liquidClass := kw.liquidClass, tip := kw.tip, rackId := kw.rackId,
+                        tubeId := kw.tubeId, rackType := kw.rackType,
+                        forcedRackType := kw.forcedRackType } (some cfg.maxVolume) with
+      | .error e => .error e
+      | .ok f => .ok [if isAsp then Rec.asp f else Rec.disp f]
+  else .ok []
+
+theorem emitAD_eq (cfg : Cfg) (L : Labware) (isAsp : Bool) (ws : List String) (vs : List Rat)
+    (kw : KW) :
+    emitAD cfg L isAsp ws vs kw
+      = (ws.zip vs).flatMap fun p => exceptMicros (adOut cfg L isAsp kw p) fun rs => rs.map Micro.emit := by
+  unfold emitAD
+  congr 1
+  funext p
+  obtain ⟨s, v⟩ := p
+  simp only [adOut]
+  split
+  · cases cfg.dev.pos L.geom s with
+    | error e => simp [exceptMicros]
+    | ok pos =>
+      simp only [exceptMicros]
+      split <;> simp_all
+  · simp [exceptMicros]
+
+theorem sub_zero' (x : Rat) : x - 0 = x := by ring
+theorem add_zero' (x : Rat) : x + 0 = x := by ring
+
+theorem micro_rm_ok {w w' : World} {l i : Nat} {v : Rat} (h : w.micro (.rm l i v) = .ok w') :
+    ∃ L L', w.labs[l]? = some L ∧ L.removeStep i v = .ok L' ∧ w' = w.setLab l L' := by
+  simp only [World.micro] at h
+  split at h
+  · cases h
+  · rename_i L hL
+    split at h
+    · rename_i L' hL'
+      cases h
+      exact ⟨L, L', hL, hL', rfl⟩
+    · cases h
+
+theorem micro_ad_ok {w w' : World} {l i : Nat} {v : Rat} {c : CompSrc}
+    (h : w.micro (.ad l i v c) = .ok w') :
+    ∃ L L' co, w.labs[l]? = some L ∧ L.addStep i v co = .ok L' ∧ w' = w.setLab l L' := by
+  simp only [World.micro] at h
+  split at h
+  · cases h
+  · rename_i L hL
+    split at h
+    · rename_i L' hL'
+      cases h
+      exact ⟨L, L', _, hL, hL', rfl⟩
+    · cases h
+
+theorem getElem?_setLab_self {w : World} {l : Nat} {L L' : Labware} (h : w.labs[l]? = some L) :
+    (w.setLab l L').labs[l]? = some L' := by
+  have hl : l < w.labs.length := by
+    rcases Nat.lt_or_ge l w.labs.length with h' | h'
+    · exact h'
+    · rw [List.getElem?_eq_none h'] at h; cases h
+  simp [World.setLab, hl]
+
+/-- The removals of an `aspirate` followed by the `A;` records it emits: replaying the records
+    performs the same accepted removals (zero volumes are neither emitted nor change anything). -/
+theorem asp_core {dev : Device} (cfg : Cfg) (hdev : cfg.dev = dev) (L : Labware) (l : Nat)
+    (kw : KW) {I} (hwf : WFI I) :
+    ∀ (ps : List (String × Rat)), (∀ p ∈ ps, 0 ≤ p.2) →
+      ∀ (w w1 : World) (st : RState) (recs : List Rec), info w = I → Match st w →
+      (∃ L0, w.labs[l]? = some L0 ∧ L0.name = L.name ∧ L0.geom = L.geom) →
+      w.exec (ps.map (rmMicro L l)) = (w1, none) →
+      emitAll (adOut cfg L true kw) ps = .ok recs →
+      ∃ st', st.run dev recs = some st' ∧ Match st' w1 := by
+  intro ps
+  induction ps with
+  | nil =>
+    intro _ w w1 st recs _ hM _ hx he
+    simp only [emitAll, Except.ok.injEq] at he
+    subst he
+    simp only [List.map_nil, World.exec_nil, Prod.mk.injEq, and_true] at hx
+    subst hx
+    exact ⟨st, rfl, hM⟩
+  | cons p ps ih =>
+    intro hnn w w1 st recs hI hM hL hx he
+    obtain ⟨s, v⟩ := p
+    obtain ⟨L0, hL0, hn0, hg0⟩ := hL
+    have hv0 : 0 ≤ v := hnn (s, v) List.mem_cons_self
+    rw [List.map_cons] at hx
+    cases hm : w.micro (rmMicro L l (s, v)) with
+    | error e => rw [World.exec_cons_error _ hm] at hx; cases hx
+    | ok wa =>
+      rw [World.exec_cons_ok _ hm] at hx
+      have hIa : info wa = I := by rw [info_micro hm, hI]
+      unfold rmMicro at hm
+      cases hres : L.geom.resolveFlat s with
+      | none => simp [hres, World.micro] at hm
+      | some i =>
+        simp only [hres] at hm
+        obtain ⟨La0, La, hLa0, hstep, rfl⟩ := micro_rm_ok hm
+        rw [hL0] at hLa0
+        cases hLa0
+        obtain ⟨_, _, _, _, hnA, hgA, _⟩ := Labware.removeStep_fields hstep
+        have hLa : ∃ L1, (w.setLab l La).labs[l]? = some L1 ∧ L1.name = L.name ∧ L1.geom = L.geom :=
+          ⟨La, getElem?_setLab_self hL0, by rw [hnA, hn0], by rw [hgA, hg0]⟩
+        cases hf : adOut cfg L true kw (s, v) with
+        | error e => simp [emitAll, hf] at he
+        | ok rs =>
+          cases hrest : emitAll (adOut cfg L true kw) ps with
+          | error e => simp [emitAll, hf, hrest] at he
+          | ok rs' =>
+            simp only [emitAll, hf, hrest, Except.ok.injEq] at he
+            subst he
+            have hnn' : ∀ p ∈ ps, 0 ≤ p.2 := fun p hp => hnn p (List.mem_cons_of_mem _ hp)
+            unfold adOut at hf
+            by_cases hv : 0 < v
+            · simp only [hv, if_true] at hf
+              cases hpos : cfg.dev.pos L.geom s with
+              | error e => simp [hpos] at hf
+              | ok pos =>
+                simp only [hpos] at hf
+                split at hf
+                · cases hf
+                · rename_i f hprep
+                  simp only [if_true, Except.ok.injEq] at hf
+                  subst hf
+                  obtain ⟨hfv, hfl, hfp, _⟩ := prepareAD_fields _ _ _ hprep
+                  simp only at hfv hfl hfp
+                  have hp' : dev.pos L0.geom s = .ok pos := by rw [← hdev, hg0]; exact hpos
+                  have hr' : L0.geom.resolveFlat s = some i := by rw [hg0]; exact hres
+                  have hstep' : L0.removeStep i f.vol = .ok La := by rw [hfv]; exact hstep
+                  obtain ⟨sta, hint, hMa⟩ := interp_asp hM hI hwf hL0 hp' hr'
+                    (by rw [hfl, hn0]) (by rw [hfp]; simp) hstep'
+                  obtain ⟨st', hrun', hM'⟩ := ih hnn' _ w1 sta rs' hIa hMa hLa hx hrest
+                  refine ⟨st', ?_, hM'⟩
+                  simp only [List.singleton_append, RState.run, hint, Option.bind_some]
+                  exact hrun'
+            · simp only [hv, if_false, Except.ok.injEq] at hf
+              subst hf
+              have hv' : v = 0 := le_antisymm (not_lt.mp hv) hv0
+              subst hv'
+              obtain ⟨R, hR, hRL⟩ := forall₂_getElem? hM hL0
+              obtain ⟨_, hvols, hmin, hmax, _, _, _⟩ := Labware.removeStep_fields hstep
+              have hMa : Match st (w.setLab l La) := by
+                apply match_set_right hM l hR
+                refine labMatch_of_vols hRL ?_ hnA hgA hmin hmax
+                rw [hvols, sub_zero']
+                exact set_getD_self _ _ _
+              obtain ⟨st', hrun', hM'⟩ := ih hnn' _ w1 st rs' hIa hMa hLa hx hrest
+              exact ⟨st', by simpa using hrun', hM'⟩
+
+/-- The additions of a `dispense` followed by the `D;` records it emits. -/
+theorem disp_core {dev : Device} (cfg : Cfg) (hdev : cfg.dev = dev) (L : Labware) (l : Nat)
+    (kw : KW) {I} (hwf : WFI I) :
+    ∀ (ps : List ((String × Rat) × CompSrc)), (∀ p ∈ ps, 0 ≤ p.1.2) →
+      ∀ (w w1 : World) (st : RState) (recs : List Rec), info w = I → Match st w →
+      (∃ L0, w.labs[l]? = some L0 ∧ L0.name = L.name ∧ L0.geom = L.geom) →
+      w.exec (ps.map (adMicro L l)) = (w1, none) →
+      emitAll (adOut cfg L false kw) (ps.map (·.1)) = .ok recs →
+      ∃ st', st.run dev recs = some st' ∧ Match st' w1 := by
+  intro ps
+  induction ps with
+  | nil =>
+    intro _ w w1 st recs _ hM _ hx he
+    simp only [List.map_nil, emitAll, Except.ok.injEq] at he
+    subst he
+    simp only [List.map_nil, World.exec_nil, Prod.mk.injEq, and_true] at hx
+    subst hx
+    exact ⟨st, rfl, hM⟩
+  | cons p ps ih =>
+    intro hnn w w1 st recs hI hM hL hx he
+    obtain ⟨⟨s, v⟩, c⟩ := p
+    obtain ⟨L0, hL0, hn0, hg0⟩ := hL
+    have hv0 : 0 ≤ v := hnn ((s, v), c) List.mem_cons_self
+    rw [List.map_cons] at hx he
+    cases hm : w.micro (adMicro L l ((s, v), c)) with
+    | error e => rw [World.exec_cons_error _ hm] at hx; cases hx
+    | ok wa =>
+      rw [World.exec_cons_ok _ hm] at hx
+      have hIa : info wa = I := by rw [info_micro hm, hI]
+      unfold adMicro at hm
+      cases hres : L.geom.resolveFlat s with
+      | none => simp [hres, World.micro] at hm
+      | some i =>
+        simp only [hres] at hm
+        obtain ⟨La0, La, co, hLa0, hstep, rfl⟩ := micro_ad_ok hm
+        rw [hL0] at hLa0
+        cases hLa0
+        obtain ⟨_, _, _, _, hnA, hgA, _⟩ := Labware.addStep_fields hstep
+        have hLa : ∃ L1, (w.setLab l La).labs[l]? = some L1 ∧ L1.name = L.name ∧ L1.geom = L.geom :=
+          ⟨La, getElem?_setLab_self hL0, by rw [hnA, hn0], by rw [hgA, hg0]⟩
+        cases hf : adOut cfg L false kw (s, v) with
+        | error e => simp [emitAll, hf] at he
+        | ok rs =>
+          cases hrest : emitAll (adOut cfg L false kw) (ps.map (·.1)) with
+          | error e => simp [emitAll, hf, hrest] at he
+          | ok rs' =>
+            simp only [emitAll, hf, hrest, Except.ok.injEq] at he
+            subst he
+            have hnn' : ∀ p ∈ ps, 0 ≤ p.1.2 := fun p hp => hnn p (List.mem_cons_of_mem _ hp)
+            unfold adOut at hf
+            by_cases hv : 0 < v
+            · simp only [hv, if_true] at hf
+              cases hpos : cfg.dev.pos L.geom s with
+              | error e => simp [hpos] at hf
+              | ok pos =>
+                simp only [hpos] at hf
+                split at hf
+                · cases hf
+                · rename_i f hprep
+                  simp only [Bool.false_eq_true, if_false, Except.ok.injEq] at hf
+                  subst hf
+                  obtain ⟨hfv, hfl, hfp, _⟩ := prepareAD_fields _ _ _ hprep
+                  simp only at hfv hfl hfp
+                  have hp' : dev.pos L0.geom s = .ok pos := by rw [← hdev, hg0]; exact hpos
+                  have hr' : L0.geom.resolveFlat s = some i := by rw [hg0]; exact hres
+                  have hstep' : L0.addStep i f.vol co = .ok La := by rw [hfv]; exact hstep
+                  obtain ⟨sta, hint, hMa⟩ := interp_disp hM hI hwf hL0 hp' hr'
+                    (by rw [hfl, hn0]) (by rw [hfp]; simp) hstep'
+                  obtain ⟨st', hrun', hM'⟩ := ih hnn' _ w1 sta rs' hIa hMa hLa hx hrest
+                  refine ⟨st', ?_, hM'⟩
+                  simp only [List.singleton_append, RState.run, hint, Option.bind_some]
+                  exact hrun'
+            · simp only [hv, if_false, Except.ok.injEq] at hf
+              subst hf
+              have hv' : v = 0 := le_antisymm (not_lt.mp hv) hv0
+              subst hv'
+              obtain ⟨R, hR, hRL⟩ := forall₂_getElem? hM hL0
+              obtain ⟨_, hvols, hmin, hmax, _, _, _⟩ := Labware.addStep_fields hstep
+              have hMa : Match st (w.setLab l La) := by
+                apply match_set_right hM l hR
+                refine labMatch_of_vols hRL ?_ hnA hgA hmin hmax
+                rw [hvols, add_zero']
+                exact set_getD_self _ _ _
+              obtain ⟨st', hrun', hM'⟩ := ih hnn' _ w1 st rs' hIa hMa hLa hx hrest
+              exact ⟨st', by simpa using hrun', hM'⟩
+
+/-! ### Blocks: removals/additions, a neutral stretch, then the emission loop -/
+
+theorem exec_prefix_ok {w w1 : World} {a b : List Micro} (h : w.exec (a ++ b) = (w1, none)) :
+    ∃ wa, w.exec a = (wa, none) := by
+  rw [World.exec_append] at h
+  cases hx : w.exec a with
+  | mk wa e =>
+    rw [hx] at h
+    cases e with
+    | none => exact ⟨wa, rfl⟩
+    | some e => cases h
+
+def Micro.noEmit : Micro → Bool
+  | .emit _ | .setDiti _ => false
+  | _ => true
+
+theorem recs_micro_noEmit {w w' : World} {m : Micro} (hm : Micro.noEmit m = true)
+    (h : w.micro m = .ok w') : w'.recs = w.recs := by
+  cases m with
+  | emit _ => simp [Micro.noEmit] at hm
+  | setDiti _ => simp [Micro.noEmit] at hm
+  | fail e => simp [World.micro] at h
+  | rm l i v => obtain ⟨_, _, _, _, rfl⟩ := micro_rm_ok h; rfl
+  | ad l i v c => obtain ⟨_, _, _, _, _, rfl⟩ := micro_ad_ok h; rfl
+  | loadComp l i =>
+    simp only [World.micro] at h
+    split at h
+    · cases h
+    · cases h; rfl
+  | log l label =>
+    simp only [World.micro] at h
+    split at h
+    · cases h
+    · cases h; rfl
+  | condense l n label =>
+    simp only [World.micro] at h
+    split at h
+    · cases h
+    · split at h
+      · cases h; rfl
+      · cases h
+
+theorem recs_exec_noEmit (w : World) (ms : List Micro) (h : ∀ m ∈ ms, Micro.noEmit m = true) :
+    (w.exec ms).1.recs = w.recs :=
+  World.exec_invariant (P := fun w' => w'.recs = w.recs) (Q := fun m => Micro.noEmit m = true)
+    (fun _ _ _ hq hp hm => by rw [recs_micro_noEmit hq hm]; exact hp) w ms h rfl
+
+theorem rmMicro_noEmit (L : Labware) (l : Nat) (p : String × Rat) :
+    Micro.noEmit (rmMicro L l p) = true := by
+  unfold rmMicro; split <;> rfl
+
+theorem adMicro_noEmit (L : Labware) (l : Nat) (p : (String × Rat) × CompSrc) :
+    Micro.noEmit (adMicro L l p) = true := by
+  unfold adMicro; split <;> rfl
+
+theorem lab_of_info {w : World} {I} (hI : info w = I) {l : Nat} {L : Labware}
+    (hIl : ∃ n, I[l]? = some (L.name, L.geom, n)) :
+    ∃ L0, w.labs[l]? = some L0 ∧ L0.name = L.name ∧ L0.geom = L.geom := by
+  obtain ⟨n, hn⟩ := hIl
+  rw [← hI] at hn
+  unfold info at hn
+  rw [List.getElem?_map] at hn
+  cases hL : w.labs[l]? with
+  | none => rw [hL] at hn; cases hn
+  | some L0 =>
+    rw [hL] at hn
+    simp only [Option.map_some, Option.some.injEq, sinfo, Prod.mk.injEq] at hn
+    exact ⟨L0, rfl, hn.1, hn.2.1⟩
+
+/-- `remove` on the labware, anything neutral, then one `A;` per non-zero well. -/
+theorem safe_rm_emit {dev : Device} {labs₀ : List Labware} {I} (hwf : WFI I) (cfg : Cfg)
+    (hdev : cfg.dev = dev) (L : Labware) (l : Nat) (kw : KW)
+    (hIl : ∃ n, I[l]? = some (L.name, L.geom, n))
+    (ps : List (String × Rat)) (hnn : ∀ p ∈ ps, 0 ≤ p.2) (mid : List Micro)
+    (hmid : ∀ m ∈ mid, Micro.neutral m = true) :
+    SafeBlock dev labs₀ I (ps.map (rmMicro L l) ++ (mid ++
+      ps.flatMap fun p => exceptMicros (adOut cfg L true kw p) fun rs => rs.map Micro.emit)) := by
+  intro w hI ⟨st, hrun, hM⟩
+  rw [World.exec_append]
+  have hA := recs_exec_noEmit w (ps.map (rmMicro L l)) (by
+    intro m hm; obtain ⟨p, _, rfl⟩ := List.mem_map.1 hm; exact rmMicro_noEmit L l p)
+  cases hx1 : w.exec (ps.map (rmMicro L l)) with
+  | mk w1 e1 =>
+    rw [hx1] at hA
+    simp only at hA
+    cases e1 with
+    | some e => exact ⟨⟨st, by rw [hA]; exact hrun⟩, fun h => by cases h⟩
+    | none =>
+      simp only
+      rw [World.exec_append]
+      obtain ⟨nrecs, hnr, hr2, hM2⟩ := neutral_exec w1 mid hmid
+      cases hx2 : w1.exec mid with
+      | mk w2 e2 =>
+        rw [hx2] at hr2 hM2
+        simp only at hr2 hM2
+        have hrun2 : (RState.ofLabs labs₀).run dev w2.recs = some st := by
+          rw [hr2, hA, run_append, hrun, Option.bind_some]
+          exact run_neutral dev st nrecs hnr
+        cases e2 with
+        | some e => exact ⟨⟨st, hrun2⟩, fun h => by cases h⟩
+        | none =>
+          simp only
+          obtain ⟨j, recs, hj, he, h1, h2⟩ := exec_emits (adOut cfg L true kw) ps w2
+          have hsplit : ps.map (rmMicro L l)
+              = (ps.take j).map (rmMicro L l) ++ (ps.drop j).map (rmMicro L l) := by
+            rw [← List.map_append, List.take_append_drop]
+          obtain ⟨w1j, hx1j⟩ := exec_prefix_ok (by rw [← hsplit]; exact hx1)
+          obtain ⟨st', hrun', hM'⟩ := asp_core cfg hdev L l kw hwf (ps.take j)
+            (fun p hp => hnn p (List.mem_of_mem_take hp)) w w1j st recs hI hM
+            (lab_of_info hI hIl) hx1j he
+          have hfin : (RState.ofLabs labs₀).run dev
+              (w2.exec (ps.flatMap fun p => exceptMicros (adOut cfg L true kw p)
+                fun rs => rs.map Micro.emit)).1.recs = some st' := by
+            rw [h1]
+            simp only
+            rw [run_append, hrun2, Option.bind_some]
+            exact hrun'
+          refine ⟨⟨st', hfin⟩, fun hnone => ⟨st', hfin, ?_⟩⟩
+          have hjl := h2 hnone
+          subst hjl
+          rw [List.take_length] at hx1j
+          rw [hx1] at hx1j
+          cases hx1j
+          rw [h1]
+          exact hM2 st' hM'
+
+/-- `add` on the labware, anything neutral, then one `D;` per non-zero well. -/
+theorem safe_ad_emit {dev : Device} {labs₀ : List Labware} {I} (hwf : WFI I) (cfg : Cfg)
+    (hdev : cfg.dev = dev) (L : Labware) (l : Nat) (kw : KW)
+    (hIl : ∃ n, I[l]? = some (L.name, L.geom, n))
+    (ps : List ((String × Rat) × CompSrc)) (hnn : ∀ p ∈ ps, 0 ≤ p.1.2) (mid : List Micro)
+    (hmid : ∀ m ∈ mid, Micro.neutral m = true) :
+    SafeBlock dev labs₀ I (ps.map (adMicro L l) ++ (mid ++
+      (ps.map (·.1)).flatMap fun p =>
+        exceptMicros (adOut cfg L false kw p) fun rs => rs.map Micro.emit)) := by
+  intro w hI ⟨st, hrun, hM⟩
+  rw [World.exec_append]
+  have hA := recs_exec_noEmit w (ps.map (adMicro L l)) (by
+    intro m hm; obtain ⟨p, _, rfl⟩ := List.mem_map.1 hm; exact adMicro_noEmit L l p)
+  cases hx1 : w.exec (ps.map (adMicro L l)) with
+  | mk w1 e1 =>
+    rw [hx1] at hA
+    simp only at hA
+    cases e1 with
+    | some e => exact ⟨⟨st, by rw [hA]; exact hrun⟩, fun h => by cases h⟩
+    | none =>
+      simp only
+      rw [World.exec_append]
+      obtain ⟨nrecs, hnr, hr2, hM2⟩ := neutral_exec w1 mid hmid
+      cases hx2 : w1.exec mid with
+      | mk w2 e2 =>
+        rw [hx2] at hr2 hM2
+        simp only at hr2 hM2
+        have hrun2 : (RState.ofLabs labs₀).run dev w2.recs = some st := by
+          rw [hr2, hA, run_append, hrun, Option.bind_some]
+          exact run_neutral dev st nrecs hnr
+        cases e2 with
+        | some e => exact ⟨⟨st, hrun2⟩, fun h => by cases h⟩
+        | none =>
+          simp only
+          obtain ⟨j, recs, hj, he, h1, h2⟩ := exec_emits (adOut cfg L false kw) (ps.map (·.1)) w2
+          have hsplit : ps.map (adMicro L l)
+              = (ps.take j).map (adMicro L l) ++ (ps.drop j).map (adMicro L l) := by
+            rw [← List.map_append, List.take_append_drop]
+          obtain ⟨w1j, hx1j⟩ := exec_prefix_ok (by rw [← hsplit]; exact hx1)
+          rw [← List.map_take] at he
+          obtain ⟨st', hrun', hM'⟩ := disp_core cfg hdev L l kw hwf (ps.take j)
+            (fun p hp => hnn p (List.mem_of_mem_take hp)) w w1j st recs hI hM
+            (lab_of_info hI hIl) hx1j he
+          have hfin : (RState.ofLabs labs₀).run dev
+              (w2.exec ((ps.map (·.1)).flatMap fun p => exceptMicros (adOut cfg L false kw p)
+                fun rs => rs.map Micro.emit)).1.recs = some st' := by
+            rw [h1]
+            simp only
+            rw [run_append, hrun2, Option.bind_some]
+            exact hrun'
+          refine ⟨⟨st', hfin⟩, fun hnone => ⟨st', hfin, ?_⟩⟩
+          have hjl := h2 hnone
+          rw [List.length_map] at hjl
+          subst hjl
+          rw [List.take_length] at hx1j
+          rw [hx1] at hx1j
+          cases hx1j
+          rw [h1]
+          exact hM2 st' hM'
+
+/-! ### The compiled operations are safe blocks -/
+
+theorem broadcast1_idem {α} (l : List α) (n : Nat) : broadcast1 (broadcast1 l n) n = broadcast1 l n := by
+  match l with
+  | [] => rfl
+  | [a] =>
+    match n with
+    | 0 => rfl
+    | 1 => rfl
+    | n + 2 => rfl
+  | _ :: _ :: _ => rfl
+
+theorem flattenF_vec {α} (l : List α) : (Arr.vec l).flattenF = l := rfl
+
+theorem safe_fail_append {dev labs₀ I} (e : Err) (rest : List Micro) :
+    SafeBlock dev labs₀ I ([Micro.fail e] ++ rest) := by
+  intro w _ hinv
+  have : w.exec ([Micro.fail e] ++ rest) = (w, some e) := by
+    simp [World.exec, World.micro]
+  rw [this]
+  exact ⟨hinv.replayable, fun h => by cases h⟩
+
+theorem commentMicros_neutral (c : Option String) : ∀ m ∈ commentMicros c, Micro.neutral m = true := by
+  intro m hm
+  unfold commentMicros exceptMicros at hm
+  split at hm
+  · rename_i rs hrs
+    obtain ⟨r, hr, rfl⟩ := List.mem_map.1 hm
+    unfold commentRecs at hrs
+    split at hrs
+    · cases hrs; cases hr
+    · split at hrs
+      · cases hrs; cases hr
+      · split at hrs
+        · cases hrs
+        · cases hrs
+          obtain ⟨l, _, hl⟩ := List.mem_filterMap.1 hr
+          simp only at hl
+          split at hl
+          · cases hl
+          · cases hl; rfl
+  · simp only [List.mem_singleton] at hm
+    subst hm; rfl
+
+theorem nonneg_of_not_any_neg {ws : List String} {vs : List Rat} (h : ¬ (vs.any (· < 0)) = true) :
+    ∀ p ∈ ws.zip vs, 0 ≤ p.2 := by
+  intro p hp
+  have hmem : p.2 ∈ vs := (List.of_mem_zip hp).2
+  rw [List.any_eq_true] at h
+  by_contra hneg
+  exact h ⟨p.2, hmem, by simpa using not_le.mp hneg⟩
+
+theorem safe_compileAspirate {dev : Device} {labs₀ : List Labware} {I} (hwf : WFI I) (cfg : Cfg)
+    (hdev : cfg.dev = dev) (L : Labware) (l : Nat) (hIl : ∃ n, I[l]? = some (L.name, L.geom, n))
+    (wells : Arr String) (vols : Arr Rat) (label : Option String) (kw : KW) :
+    SafeBlock dev labs₀ I (compileAspirate cfg L l wells vols label kw) := by
+  unfold compileAspirate compileRemove
+  simp only [flattenF_vec, broadcast1_idem]
+  generalize wells.flattenF = ws
+  generalize vols.flattenF = vs0
+  split
+  · rw [List.append_assoc]; exact safe_fail_append _ _
+  · split
+    · rw [List.append_assoc]; exact safe_fail_append _ _
+    · rename_i _ hneg
+      rw [emitAD_eq]
+      have := safe_rm_emit (labs₀ := labs₀) hwf cfg hdev L l kw hIl
+        (ws.zip (broadcast1 vs0 ws.length))
+        (nonneg_of_not_any_neg hneg) ([Micro.log l label] ++ commentMicros label) (by
+          intro m hm
+          rcases List.mem_append.1 hm with h | h
+          · simp only [List.mem_singleton] at h; subst h; rfl
+          · exact commentMicros_neutral label m h)
+      simp only [List.append_assoc, List.singleton_append, List.cons_append, List.nil_append] at this ⊢
+      exact this
+
+theorem safe_compileDispense {dev : Device} {labs₀ : List Labware} {I} (hwf : WFI I) (cfg : Cfg)
+    (hdev : cfg.dev = dev) (L : Labware) (l : Nat) (hIl : ∃ n, I[l]? = some (L.name, L.geom, n))
+    (wells : Arr String) (vols : Arr Rat) (label : Option String)
+    (comps : Option (List (Option Comp))) (kw : KW) (carryAll : Bool) :
+    SafeBlock dev labs₀ I (compileDispense cfg L l wells vols label comps kw carryAll) := by
+  unfold compileDispense compileAdd
+  simp only [flattenF_vec, broadcast1_idem]
+  generalize wells.flattenF = ws
+  generalize vols.flattenF = vs0
+  split
+  · rw [List.append_assoc]; exact safe_fail_append _ _
+  · rename_i hlen
+    split
+    · rw [List.append_assoc]; exact safe_fail_append _ _
+    · rename_i hneg
+      split
+      · rw [List.append_assoc]; exact safe_fail_append _ _
+      · rename_i cs hcs
+        rw [emitAD_eq]
+        have hlen' : (broadcast1 vs0 ws.length).length = ws.length := by
+          simpa using hlen
+        have hcslen : cs.length = ws.length := by
+          split at hcs
+          · cases hcs; simp
+          · split at hcs
+            · cases hcs; simp
+            · rename_i lst
+              by_cases hl : lst.length = ws.length
+              · simp only [hl, ne_eq, not_true_eq_false, if_false, Option.some.injEq] at hcs
+                subst hcs
+                simp [hl]
+              · simp [hl] at hcs
+        have hfst : ((ws.zip (broadcast1 vs0 ws.length)).zip cs).map (·.1)
+            = ws.zip (broadcast1 vs0 ws.length) := by
+          apply List.map_fst_zip
+          rw [List.length_zip, hlen', hcslen]
+          simp
+        have := safe_ad_emit (labs₀ := labs₀) hwf cfg hdev L l kw hIl
+          ((ws.zip (broadcast1 vs0 ws.length)).zip cs)
+          (by
+            intro p hp
+            have h1 : p.1 ∈ ws.zip (broadcast1 vs0 ws.length) :=
+              (List.of_mem_zip hp).1
+            exact nonneg_of_not_any_neg hneg p.1 h1)
+          ([Micro.log l label] ++ commentMicros label) (by
+            intro m hm
+            rcases List.mem_append.1 hm with h | h
+            · simp only [List.mem_singleton] at h; subst h; rfl
+            · exact commentMicros_neutral label m h)
+        rw [hfst] at this
+        simp only [List.append_assoc, List.singleton_append, List.cons_append, List.nil_append] at this ⊢
+        exact this
+
+theorem safe_exceptMicros_neutral {α} {dev labs₀ I} (x : Except Err α) (f : α → List Micro)
+    (h : ∀ a, ∀ m ∈ f a, Micro.neutral m = true) : SafeBlock dev labs₀ I (exceptMicros x f) := by
+  apply safe_all_neutral
+  intro m hm
+  unfold exceptMicros at hm
+  split at hm
+  · exact h _ m hm
+  · simp only [List.mem_singleton] at hm; subst hm; rfl
+
+theorem washMicros_neutral (cfg : Cfg) (n : Int) : ∀ m ∈ washMicros cfg n, Micro.neutral m = true := by
+  intro m hm
+  unfold washMicros at hm
+  split at hm
+  · simp only [List.mem_singleton] at hm; subst hm; rfl
+  · split at hm <;> (simp only [List.mem_singleton] at hm; subst hm; rfl)
+
+theorem actionMicros_neutral (cfg : Cfg) (wa : WashArg) :
+    ∀ m ∈ actionMicros cfg wa, Micro.neutral m = true := by
+  intro m hm
+  unfold actionMicros at hm
+  split at hm
+  · simp only [List.mem_singleton] at hm; subst hm; rfl
+  · cases hm
+  · exact washMicros_neutral cfg _ m hm
+
+theorem safe_compileTransfer {dev : Device} {labs₀ : List Labware} {I} (hwf : WFI I) (cfg : Cfg)
+    (hdev : cfg.dev = dev) (S : Labware) (src : Nat) (hIs : ∃ n, I[src]? = some (S.name, S.geom, n))
+    (D : Labware) (dst : Nat) (hId : ∃ n, I[dst]? = some (D.name, D.geom, n))
+    (srcWells dstWells : Arr String) (vols : Arr Rat) (label : Option String) (wash : WashArg)
+    (partitionBy : String) (kw : KW) :
+    SafeBlock dev labs₀ I
+      (compileTransfer cfg S src srcWells D dst dstWells vols label wash partitionBy kw) := by
+  unfold compileTransfer
+  split
+  · exact safe_all_neutral _ (by intro m hm; simp only [List.mem_singleton] at hm; subst hm; rfl)
+  · simp only
+    split
+    · exact safe_all_neutral _ (by intro m hm; simp only [List.mem_singleton] at hm; subst hm; rfl)
+    · split
+      · exact safe_all_neutral _ (by intro m hm; simp only [List.mem_singleton] at hm; subst hm; rfl)
+      · split
+        · exact safe_all_neutral _ (by intro m hm; simp only [List.mem_singleton] at hm; subst hm; rfl)
+        · rw [List.append_assoc]
+          apply safe_append (safe_all_neutral _ (commentMicros_neutral label))
+          apply safe_append
+          · apply safe_flatMap
+            intro stp _
+            cases stp with
+            | pair s d v =>
+              simp only
+              rw [List.append_assoc]
+              apply safe_append (safe_compileAspirate hwf cfg hdev S src hIs _ _ _ _)
+              apply safe_append
+              · apply safe_exceptMicros_neutral
+                intro i m hm
+                simp only [List.mem_singleton] at hm; subst hm; rfl
+              · exact safe_compileDispense hwf cfg hdev D dst hId _ _ _ _ _ _
+            | action => exact safe_all_neutral _ (actionMicros_neutral cfg wash)
+            | brk =>
+              exact safe_all_neutral _ (by
+                intro m hm; simp only [List.mem_singleton] at hm; subst hm; rfl)
+          · apply safe_all_neutral
+            intro m hm
+            split at hm
+            · simp only [List.mem_singleton] at hm; subst hm; rfl
+            · simp only [List.mem_cons, List.not_mem_nil, or_false] at hm
+              rcases hm with rfl | rfl <;> rfl
+
+/-! ### Every tracked worklist operation compiles to a safe block -/
+
+/-- Operations whose liquid movements are tracked *and* written as `A;`/`D;` records.
+    Not included: `distribute` (one `R;` record, see `safe_compileDistribute`), direct
+    `Labware.add/remove` (no worklist involved), `aspirate_well`/`dispense_well`/
+    `reagent_distribution` (records without tracking), `evo_aspirate`/`evo_dispense` (tracking
+    with an EVOware script command that a `.gwl` record interpreter does not execute; C13). -/
+def tracked : Op → Bool
+  | .aspirate .. | .dispense .. | .transfer .. => true
+  | .comment _ | .wash _ | .decontaminate | .flush | .commit | .setDiti _ | .condenseLog .. => true
+  | .evoWash _ => true
+  | _ => false
+
+theorem info_getElem {w : World} {l : Nat} {L : Labware} (h : w.labs[l]? = some L) :
+    ∃ n, (info w)[l]? = some (L.name, L.geom, n) :=
+  ⟨L.vols.length, by unfold info; rw [List.getElem?_map, h]; rfl⟩
+
+theorem single_neutral {dev labs₀ I} (m : Micro) (h : Micro.neutral m = true) :
+    SafeBlock dev labs₀ I [m] := safe_neutral m h
+
+theorem compile_safe {labs₀ : List Labware} (w : World) (hwf : WFI (info w)) (op : Op)
+    (hop : tracked op = true) : SafeBlock w.cfg.dev labs₀ (info w) (compile w op) := by
+  cases op with
+  | aspirate l wells vols label kw =>
+    simp only [compile]
+    cases hL : w.labs[l]? with
+    | none => exact single_neutral _ rfl
+    | some L => exact safe_compileAspirate hwf w.cfg rfl L l (info_getElem hL) _ _ _ _
+  | dispense l wells vols label comps kw =>
+    simp only [compile]
+    cases hL : w.labs[l]? with
+    | none => exact single_neutral _ rfl
+    | some L => exact safe_compileDispense hwf w.cfg rfl L l (info_getElem hL) _ _ _ _ _ _
+  | transfer s sw d dw vols label wash pb kw =>
+    simp only [compile]
+    cases hS : w.labs[s]? with
+    | none => exact single_neutral _ rfl
+    | some S =>
+      cases hD : w.labs[d]? with
+      | none => exact single_neutral _ rfl
+      | some D =>
+        exact safe_compileTransfer hwf w.cfg rfl S s (info_getElem hS) D d (info_getElem hD)
+          _ _ _ _ _ _ _
+  | comment c => exact safe_all_neutral _ (commentMicros_neutral c)
+  | wash n => exact safe_all_neutral _ (washMicros_neutral w.cfg n)
+  | decontaminate =>
+    simp only [compile]
+    split <;> exact single_neutral _ rfl
+  | flush => exact single_neutral _ rfl
+  | commit => exact single_neutral _ rfl
+  | setDiti i => exact single_neutral _ rfl
+  | condenseLog l n label => exact single_neutral _ rfl
+  | evoWash a =>
+    simp only [compile]
+    split
+    · exact single_neutral _ rfl
+    · apply safe_exceptMicros_neutral
+      intro f m hm
+      simp only [List.mem_singleton] at hm; subst hm; rfl
+  | add _ _ _ _ _ => cases hop
+  | remove _ _ _ _ => cases hop
+  | distribute _ => cases hop
+  | aspirateWell _ => cases hop
+  | dispenseWell _ => cases hop
+  | reagentDistribution _ => cases hop
+  | evoAspirate _ _ _ => cases hop
+  | evoDispense _ _ _ _ => cases hop
+
+theorem match_ofLabs (w : World) : Match (RState.ofLabs w.labs) w := by
+  unfold Match RState.ofLabs
+  simp only
+  generalize w.labs = labs
+  induction labs with
+  | nil => exact List.Forall₂.nil
+  | cons L Ls ih =>
+    refine List.Forall₂.cons ⟨rfl, rfl, rfl, rfl, ?_⟩ ih
+    simp only [List.map_map]
+    apply List.ext_getElem?
+    intro i
+    simp only [List.getElem?_map, List.getElem?_range, Function.comp_def]
+    by_cases hi : i < L.vols.length
+    · simp [hi, Labware.vol, List.getD_eq_getElem?_getD]
+    · simp [hi, List.getElem?_eq_none (Nat.le_of_not_lt hi)]
+
 end RP
 end Robotools
